@@ -162,3 +162,14 @@ package skiplist
 //@   invariant forall(P_skiplist_Element(x), Int(l), (slIn(s, x) && rangeint_iter <= l && l < len(x.next)) ==> x.next[l] != e, trig(x.next[l]))
 //@   invariant all(j, 0, level, update[j] != e && slIn(s, update[j]) && (update[j] != s.head ==> cmp(update[j].Entry.Key, entry.Key) < 0))
 //@   invariant forall(P_skiplist_Element(y), (slIn(s, y) && y != s.head && y != e) ==> cmp(y.Entry.Key, entry.Key) != 0, trig(slIn(s, y)))
+//
+//@ func (*skiplist.SkipList).Reset -> r
+//@ props C17 C01
+//@ requires s != nil && s.maxLevel >= 1
+//@ assigns SLMem
+//@ ensures SL(r) && r.maxLevel == s.maxLevel && ref(r) >= old(alloc) && ref(r.head) >= old(alloc)
+//@ ensures forall(Int(x), SLMem[ref(r)][x] ==> x == ref(r.head), trig(SLMem[ref(r)][x]))
+//@ ensures forall(Int(l), l != ref(r) ==> SLMem[l] == old(SLMem)[l], trig(SLMem[l]))
+//
+// Delete is not under contract: it is not used by the engine (deletions are tombstones written with
+// Set) and needs the stronger all-level form of `exact`; sequences containing Delete are not decided.
